@@ -290,6 +290,24 @@ def search(ctx):
                 r1, lp1 = em1.lnposterior(vals1, data), em1.lnprior(vals1)
                 if r1 != -np.inf or lp1 != -np.inf or cnt3.calls != 0:
                     ctx.violation("C12:outside-support:one-sided", "r = %g is outside BoundedGaussian(0.55, 0.1, %r, %r): lnprior %r, lnposterior %r, forward evaluations %d" % (rbad, lo_, hi_, lp1, r1, cnt3.calls), info)
+            # a value exactly ON a bound of its prior is inside the (closed) support: finite log-prior, one hologram computed
+            for ptype, lo_, hi_, at in (("Uniform", 0.3, 0.7, 0.3), ("Uniform", 0.3, 0.7, 0.7), ("Uniform", 0.45, np.inf, 0.45), ("BoundedGaussian", 0.4, 0.7, 0.7), ("BoundedGaussian", 0.4, 0.7, 0.4)):
+                cnt4 = Counter(data)
+                pr4 = Uniform(lo_, hi_, guess=0.5) if ptype == "Uniform" else BoundedGaussian(0.55, 0.1, lo_, hi_)
+                sc4 = Sphere(n=1.59, r=pr4, center=[truth.center[0], truth.center[1], pz])
+                em4 = ExactModel(sc4, calc_func=cnt4, noise_sd=sd, theory=Mie(), **OPT)
+                vals4 = dict(zip(em4._parameter_names, [p.guess for p in em4._parameters]))
+                vals4[[nm for nm in em4._parameter_names if nm.endswith('r')][0]] = at
+                ctx.tried("value-on-bound", (ptype, lo_, hi_, at))
+                lp4 = em4.lnprior(vals4)
+                want4 = sum(p.lnprob(vals4[nm]) for nm, p in zip(em4._parameter_names, [pr4, pz]))
+                wexp = (math.log(1 / (hi_ - lo_)) if np.isfinite(hi_) else -1e6) if ptype == "Uniform" else (-math.log(0.1 * math.sqrt(2 * math.pi)) - (at - 0.55) ** 2 / (2 * 0.01))
+                wexp += math.log(1 / 7.0)      # pz = Uniform(3, 10) at its guess
+                r4 = em4.lnposterior(vals4, data)
+                if not (np.isfinite(lp4) and abs(lp4 - wexp) <= 1e-9 * max(1, abs(wexp))) or not np.isfinite(r4) or cnt4.calls != 1:
+                    ctx.violation("C12:value-on-bound", "r = %g exactly on a bound of %s(%r, %r): lnprior %r (the sum of the log-densities is %r), lnposterior %r, forward evaluations %d" % (
+                        at, ptype, lo_, hi_, lp4, wexp, r4, cnt4.calls), info)
+                    break
             cnt2 = Counter(data)
             two = Spheres([Sphere(n=1.59, r=0.5, center=[Uniform(0, 2, guess=0.5), 0.5, 5.0]), Sphere(n=1.59, r=0.5, center=(1.0, 0.5, 5.0))], warn=False)
             frac = float(rng.uniform(0.05, 0.5))
